@@ -136,14 +136,16 @@ func (c *cmp) equal(a, b reflect.Value, path string) {
 	}
 }
 
-func importSet(f *ast.File) map[string]string {
-	m := map[string]string{}
+// importSet returns the import specs of f as "path name" pairs (a path may be imported more than once
+// under different names).
+func importSet(f *ast.File) map[string]bool {
+	m := map[string]bool{}
 	for _, im := range f.Imports {
 		n := ""
 		if im.Name != nil {
 			n = im.Name.Name
 		}
-		m[im.Path.Value] = n
+		m[im.Path.Value+" "+n] = true
 	}
 	return m
 }
@@ -172,8 +174,8 @@ func check(src, gen string) []finding {
 	}
 	// imports only added
 	si, gi := importSet(sf), importSet(gf)
-	for p, n := range si {
-		if gn, ok := gi[p]; !ok || gn != n {
+	for p := range si {
+		if !gi[p] {
 			out = append(out, finding{src, "C16", "import " + p + " removed or renamed in the generated file"})
 		}
 	}
